@@ -20,6 +20,8 @@ structure IState where
   next : Nat := 0
   subst : List (Nat × ITy) := []
   binders : List (String × ITy) := []
+  /-- binders whose type the program text states (the pre-pass must not guess another one) -/
+  fixed : List (String × Ty) := []
 deriving Inhabited
 
 abbrev IM := StateT IState (Except String)
@@ -77,12 +79,15 @@ partial def ofTy : Ty → ITy
   | .tup ts => .tup (ts.map ofTy)
   | .fn as r => .fn (as.map ofTy) (ofTy r)
 
-/-- a binder that needs an annotation: fresh metavariable, shared with every other binder of the same name -/
+/-- a binder that needs an annotation: its stated type, else a fresh metavariable; shared with every other binder of the
+same name -/
 def binderMv (x : String) : IM ITy := do
   match (← get).binders.lookup x with
   | some t => pure t
   | none =>
-    let t ← freshMv
+    let t ← match (← get).fixed.lookup x with
+      | some ty => pure (ofTy ty)
+      | none => freshMv
     modify fun s => { s with binders := (x, t) :: s.binders }
     pure t
 
@@ -191,16 +196,16 @@ def inferProgI (P : Prog) : IM (List (String × ITy)) := do
   inferFnI Φ Γg P.dsp (List.replicate P.dsp.params.length .num) r
   pure rets
 
-/-- guessed annotations, or why inference failed -/
-def inferAnnot (P : Prog) : Except String Annot :=
-  match (inferProgI P).run {} with
+/-- guessed annotations (extending the stated ones `fixed`), or why inference failed -/
+def inferAnnot (P : Prog) (fixed : Binders := []) : Except String Annot :=
+  match (inferProgI P).run { fixed := fixed } with
   | .error e => .error e
   | .ok (rets, s) =>
     .ok { binders := s.binders.map fun (x, t) => (x, zonk s.subst t), rets := rets.map fun (f, t) => (f, zonk s.subst t) }
 
 /-- inference, then the VERIFIED checker on the guessed annotations -/
-def checkInfer (P : Prog) : Option (Annot × Sig × List Ty × Ty) :=
-  match inferAnnot P with
+def checkInfer (P : Prog) (fixed : Binders := []) : Option (Annot × Sig × List Ty × Ty) :=
+  match inferAnnot P fixed with
   | .error _ => none
   | .ok A => (checkProg A P).map fun r => (A, r)
 
